@@ -584,3 +584,18 @@ def model_value(m, t, default=0.0):
         return float(str(v))
     except Exception:
         return default
+
+
+def robust_check(assertions, timeout_ms=10000, seeds=(0, 7, 13, 42)):
+    """z3's non-linear engine is occasionally unlucky on a query it normally solves in a second:
+    'unknown' is retried with other random seeds before it is reported (sat/unsat are final)."""
+    last = z3.unknown
+    for sd in seeds:
+        s = z3.Solver()
+        s.set('timeout', int(timeout_ms))
+        s.set('random_seed', sd)
+        s.add(*assertions)
+        last = s.check()
+        if last != z3.unknown:
+            return last
+    return last
